@@ -5,6 +5,7 @@ package main
 import (
 	"math/rand"
 
+	"verifharness/ur"
 	"verifharness/vlib"
 )
 
@@ -21,6 +22,23 @@ func main() {
 		n = 1200
 	}
 	vlib.ExecConformance(c, "C04", bins, vs, rand.New(rand.NewSource(vlib.Seed()+400)), n,
-		vlib.ExecMode{Faults: true, Panics: true, DirFaults: true, IntFaults: true, Mutations: true, PlansPer: 6})
+		vlib.ExecMode{Faults: true, Panics: true, DirFaults: true, IntFaults: true, ArgFaults: true, Mutations: true, PlansPer: 6})
+	// second pass: through handler.Server + POST, with values whose marshaler panics while
+	// the response is serialized ("fails only that response with a well-formed error body")
+	mp := func(id, q string, plan map[string]ur.Outcome) *vlib.Scenario {
+		s := vlib.CorpusScenario(id, q, nil)
+		s.Plan = plan
+		return s
+	}
+	boom := ur.Outcome{K: "val", V: "panic"}
+	corpus := []*vlib.Scenario{
+		mp("C04h-m1", `{ boomOut s }`, map[string]ur.Outcome{"boomOut": boom}),
+		mp("C04h-m2", `{ a { id boom } as { boom s } }`, map[string]ur.Outcome{"as.1.boom": boom}),
+		mp("C04h-m3", `{ an { kidn { boom sn } kids { boom } } sn }`, map[string]ur.Outcome{"an.kids.0.boom": boom, "an.kidn.sn": {K: "err"}}),
+		mp("C04h-m4", `{ a { boom } boomOut }`, map[string]ur.Outcome{"a.boom": {K: "val", V: "fine"}, "boomOut": {K: "null"}}),
+		mp("C04h-m5", `mutation { m1 { boom } m2 { id } }`, map[string]ur.Outcome{"m1.boom": boom}),
+	}
+	vlib.ExecConformance(c, "C04h", bins, vs, rand.New(rand.NewSource(vlib.Seed()+401)), n/2,
+		vlib.ExecMode{Faults: true, Panics: true, DirFaults: true, ArgFaults: true, HTTP: true, PlansPer: 4, Corpus: corpus})
 	c.Finish()
 }
